@@ -116,7 +116,14 @@ Definition mon_decode (W : world) (st : pstate) (from : addr) (wire : list N)
   | AuthSession i p x payload =>
       (* only that session may move; if delivered, exactly the authenticated fields *)
       forallb (fun j => (j =? i)%nat) (ob_changed ob) && negb (ob_ident_changed ob) &&
-      (ob_added ob =? 0)%nat && negb (ob_gstore_changed ob) && fields_match ob p x payload
+      (ob_added ob =? 0)%nat &&
+      (* only an authentic group data message on its sender's session moves the group counter store *)
+      (negb (ob_gstore_changed ob) ||
+       match nth_error (st_sessions st) i with
+       | Some s => match group_sender s p with Some _ => true | None => false end
+       | None => false
+       end) &&
+      fields_match ob p x payload
   | AuthNewPlain p x payload =>
       (length (ob_changed ob) =? 0)%nat && negb (ob_ident_changed ob) &&
       (ob_added ob <=? 1)%nat && negb (ob_gstore_changed ob) && fields_match ob p x payload
